@@ -17,6 +17,8 @@ func main() {
 	switch os.Args[1] {
 	case "worker":
 		genlab.WorkerMain(os.Args[2])
+	case "replay":
+		os.Exit(props.Replay(os.Args[2]))
 	case "list":
 		for _, id := range props.IDs() {
 			fmt.Println(id)
